@@ -122,6 +122,9 @@ fn one_run_inner(ctx: &RunCtx) -> RunOut {
         .collect();
     let peer_bytes = pattern((*pick(&[0usize, 1, 10, 3000, 100_000])).min((sw as usize * 300).clamp(64, 100_000)), 3);
     let try_overlap = chance(1, 2);
+    // one run in three (scenario a): after the frames a blob is written through the unframed path
+    // (SendStreamUnframed::poll_send), the way h3's AsyncWrite does: a fresh view of the unsent rest at every poll
+    let unframed_len: usize = if mode == 0 && draw(3) == 2 { (*pick(&[1usize, 1000, 5000, 70_000]) + draw_usize(3) * (sw as usize).min(70_000)).min(sw as usize * 300) } else { 0 };
     let (server, client) = (pair.server, pair.client);
 
     match mode {
@@ -200,6 +203,33 @@ fn one_run_inner(ctx: &RunCtx) -> RunOut {
                                 };
                                 rec_w.borrow_mut().outcome.push(("write_after_error".into(), r2.err().map(|e| serr(&e)).unwrap_or("ok".into())));
                                 return tx;
+                            }
+                        }
+                        if unframed_len > 0 {
+                            obs::count("probe.unframed_write");
+                            let blob = pattern(unframed_len, 99);
+                            let mut sent = 0usize;
+                            while sent < blob.len() {
+                                let rw = rec_w.clone();
+                                let r = poll_fn(|cx| {
+                                    let mut view: &[u8] = &blob[sent..];
+                                    let before = view.len();
+                                    let p = quic::SendStreamUnframed::poll_send(&mut tx, cx, &mut view);
+                                    match &p {
+                                        std::task::Poll::Pending if view.len() != before => rw.borrow_mut().errors.push(format!("CONTRACT poll_send returned Pending but took {} bytes out of the buffer", before - view.len())),
+                                        std::task::Poll::Ready(Ok(n)) if view.len() != before - n => rw.borrow_mut().errors.push(format!("CONTRACT poll_send reported {n} bytes but advanced the buffer by {}", before - view.len())),
+                                        _ => {}
+                                    }
+                                    p
+                                })
+                                .await;
+                                match r {
+                                    Ok(n) => sent += n,
+                                    Err(e) => {
+                                        rec_w.borrow_mut().outcome.push(("poll_send".into(), serr(&e)));
+                                        return tx;
+                                    }
+                                }
                             }
                         }
                         if let Err(e) = poll_fn(|cx| tx.poll_finish(cx)).await {
@@ -443,6 +473,7 @@ fn one_run_inner(ctx: &RunCtx) -> RunOut {
             use h3_datagram::datagram::Datagram;
             use h3_datagram::quic_traits::{DatagramConnectionExt, SendDatagram};
             let plan: Vec<(u64, Vec<u8>)> = (0..1 + draw_usize(3)).map(|i| (4 * *pick(&[0u64, 1, 63, 64, 16384, (1 << 60) - 1]), pattern(*pick(&[0usize, 1, 100, 1000]), i))).collect();
+            let chained = draw(2) == 1;
             {
                 let rec = rec.clone();
                 let plan = plan.clone();
@@ -453,11 +484,26 @@ fn one_run_inner(ctx: &RunCtx) -> RunOut {
                         Err(e) => return rec.borrow_mut().errors.push(format!("server handshake: {e}")),
                     };
                     let a = h3_quinn::Connection::new(conn);
-                    let mut sender = <AConn as DatagramConnectionExt<Bytes>>::send_datagram_handler(&a);
-                    for (id, p) in &plan {
-                        let d = Datagram::new(quic::StreamId::try_from(*id).unwrap(), Bytes::from(p.clone()));
-                        if let Err(e) = <_ as SendDatagram<Bytes>>::send_datagram(&mut sender, d.encode()) {
-                            rec.borrow_mut().errors.push(format!("send_datagram: {e:?}"));
+                    if chained {
+                        // a payload that is not one contiguous chunk (both parts non-empty when it has 2+ bytes)
+                        type CB = bytes::buf::Chain<Bytes, Bytes>;
+                        let mut sender = <AConn as DatagramConnectionExt<CB>>::send_datagram_handler(&a);
+                        for (id, p) in &plan {
+                            let cut = if p.len() >= 2 { 1 + draw_usize(p.len() - 1) } else { p.len() };
+                            let payload: CB = bytes::Buf::chain(Bytes::copy_from_slice(&p[..cut]), Bytes::copy_from_slice(&p[cut..]));
+                            let d = Datagram::new(quic::StreamId::try_from(*id).unwrap(), payload);
+                            if let Err(e) = <_ as SendDatagram<CB>>::send_datagram(&mut sender, d.encode()) {
+                                rec.borrow_mut().errors.push(format!("send_datagram: {e:?}"));
+                            }
+                        }
+                        obs::count("probe.datagram_payload_in_two_chunks");
+                    } else {
+                        let mut sender = <AConn as DatagramConnectionExt<Bytes>>::send_datagram_handler(&a);
+                        for (id, p) in &plan {
+                            let d = Datagram::new(quic::StreamId::try_from(*id).unwrap(), Bytes::from(p.clone()));
+                            if let Err(e) = <_ as SendDatagram<Bytes>>::send_datagram(&mut sender, d.encode()) {
+                                rec.borrow_mut().errors.push(format!("send_datagram: {e:?}"));
+                            }
                         }
                     }
                     rec.borrow_mut().done.push("sender".into());
@@ -561,6 +607,9 @@ fn one_run_inner(ctx: &RunCtx) -> RunOut {
         }
     }
     if mode == 0 {
+        if let Some(e) = r.errors.iter().find(|e| e.starts_with("CONTRACT")) {
+            return fail("C17.unframed_write_contract", e.clone(), what);
+        }
         if let Some(e) = r.errors.first() {
             return fail("C17.transfer_failed", format!("{e}; all {:?}; outcome {:?}", r.errors, r.outcome), what);
         }
@@ -570,6 +619,9 @@ fn one_run_inner(ctx: &RunCtx) -> RunOut {
         let mut expect = vec![];
         for (i, n) in sizes.iter().enumerate() {
             expect.extend(frames::frame(frames::DATA, &pattern(*n, i)));
+        }
+        if unframed_len > 0 {
+            expect.extend(pattern(unframed_len, 99));
         }
         match &r.peer_read {
             None => return fail("C17.bytes_never_arrived", format!("the raw peer never saw the end of the stream; virtual time {:?}, pending {:?}", e3::now(), e3::pending_tasks()), what),
@@ -690,7 +742,7 @@ impl Check for C17 {
     fn meta(&self) -> Meta {
         Meta {
             level: "exploration",
-            rule: "per run two real Quinn endpoints complete a real TLS 1.3 handshake on the simulated network; transport parameters drawn (stream receive window 1 B .. 1 MiB, connection window, send window); network faults drawn per run (drop 0-20 %, duplicate 0-10 %, reorder 0-10 %, delay up to 20 ms) or none; scenarios: (a) 1-4 DATA frames with payloads 0 .. 256 KiB at window multiples +-1 written through h3_quinn send_data/poll_ready/poll_finish while the raw peer writes 0..100 KB back, identifier queries before, while a read is pending, with a write in flight, after the first chunk and at the end, a second send_data while the first is unfinished; (b) peer stop / reset / close with arbitrary codes at a drawn byte offset, or a partition until the idle timeout; (c) a full h3 request/response over two adapters; (d) HTTP Datagrams through the Quinn datagram adapter; every run non-trivial; distinct = distinct schedule signatures (task/packet event sequences)",
+            rule: "per run two real Quinn endpoints complete a real TLS 1.3 handshake on the simulated network; transport parameters drawn (stream receive window 1 B .. 1 MiB, connection window, send window); network faults drawn per run (drop 0-20 %, duplicate 0-10 %, reorder 0-10 %, delay up to 20 ms) or none; scenarios: (a) 1-4 DATA frames with payloads 0 .. 256 KiB at window multiples +-1 written through h3_quinn send_data/poll_ready/poll_finish while the raw peer writes 0..100 KB back, identifier queries before, while a read is pending, with a write in flight, after the first chunk and at the end, a second send_data while the first is unfinished, in one run in three followed by a blob written through the unframed path (SendStreamUnframed::poll_send with a fresh view of the unsent rest at every poll, as h3's AsyncWrite does); (b) peer stop / reset / close with arbitrary codes at a drawn byte offset, or a partition until the idle timeout; (c) a full h3 request/response over two adapters; (d) HTTP Datagrams through the Quinn datagram adapter, payloads contiguous or in two chunks; every run non-trivial; distinct = distinct schedule signatures (task/packet event sequences)",
             real: &["quinn 0.11, quinn-proto, rustls (ring), h3-quinn (lib.rs, datagram.rs), h3 stream::WriteBuf and frame encoding, in scenario (c) all of h3"],
             stub: &["UDP sockets, timers, task spawner and clock (engine E3: virtual time, in-memory network, choice-driven)", "the raw Quinn peer's behaviour", "a fixed Ed25519 certificate checked into /verif/sim/certs"],
             assumptions: &["ring's system RNG influences packet contents only, never sizes or timing (runs are re-executed and compared by trace hash; a divergence is a harness error)", "DATA frame headers are compared against the minimal reference encoding"],
